@@ -56,11 +56,13 @@ func (p ptr) partialOverlap(q ptr) bool {
 }
 
 type bind struct {
-	kind  string // ptr val bool nat int bit
-	p     ptr
+	kind  string // ptr val bool nat int bit u64 arr sint word list
+	p     ptr    // ptr; list: p.typ is the element type
 	v     *V
 	e     *E
 	n     int64
+	u     uint64   // u64: a concrete uint64 too large for n
+	arr   []uint64 // arr: a local array literal of concrete words (gfP.Invert's `bits`)
 	depth int
 }
 
@@ -69,13 +71,17 @@ type state struct {
 	written map[int]bool
 	touched map[int]bool
 	env     map[string]bind
+	elems   map[string]int // slice parameter → the object its current element denotes (inside its loop)
 	cur     *prog
 	contK   []func(*state)
 	depth   int
 }
 
 func (s *state) fork(cur *prog) *state {
-	n := &state{objs: map[int]*V{}, written: map[int]bool{}, touched: map[int]bool{}, env: map[string]bind{}, cur: cur, depth: s.depth}
+	n := &state{objs: map[int]*V{}, written: map[int]bool{}, touched: map[int]bool{}, env: map[string]bind{}, elems: map[string]int{}, cur: cur, depth: s.depth}
+	for k, v := range s.elems {
+		n.elems[k] = v
+	}
 	for k, v := range s.objs {
 		n.objs[k] = v
 	}
@@ -116,6 +122,7 @@ type fctx struct {
 	leaves   []*leaf
 	callees  []*summary
 	named    []string // named results
+	canPanic bool     // some leaf is a Go run-time panic
 }
 
 type xerr struct{ msg string }
@@ -158,7 +165,10 @@ func (f *fctx) write(st *state, n ast.Node, p ptr, v *V) {
 	if f.objKind[p.obj] == "global" {
 		f.fail(n, "write to package-level variable %s", f.objName[p.obj])
 	}
-	if v.typ != p.typ {
+	if f.objKind[p.obj] == "elem" {
+		f.fail(n, "write to an element of slice parameter %s (unsupported: the loop would modify its input)", f.objName[p.obj])
+	}
+	if v.typ != under(p.typ) {
 		f.fail(n, "type mismatch in store: %s into %s", v.typ, p.typ)
 	}
 	st.objs[p.obj] = st.objs[p.obj].set(p.path, v)
@@ -260,15 +270,39 @@ func (f *fctx) eval(st *state, e ast.Expr, hint string) bind {
 		case token.AND:
 			if cl, ok := unparen(x.X).(*ast.CompositeLit); ok {
 				typ := typeName(cl.Type)
-				if len(cl.Elts) != 0 || (typ != "gfP" && !isStruct(typ)) {
-					f.fail(x, "unsupported allocation (only &T{} of the known types)")
-				}
 				name := hint
 				if name == "" {
 					name = "tmp"
 				}
+				if isWrapper(typ) {
+					// &pointG1{g: &curvePoint{}}: a wrapper around a fresh zero value
+					if len(cl.Elts) == 1 {
+						if kv, ok := cl.Elts[0].(*ast.KeyValueExpr); ok {
+							if k, ok := kv.Key.(*ast.Ident); ok && k.Name == "g" {
+								if u, ok := unparen(kv.Value).(*ast.UnaryExpr); ok && u.Op == token.AND {
+									if icl, ok := unparen(u.X).(*ast.CompositeLit); ok && typeName(icl.Type) == wrappers[typ] && len(icl.Elts) == 0 {
+										id := f.alloc(st, wrappers[typ], name, "local", zeroV(wrappers[typ]))
+										return bind{kind: "ptr", p: ptr{obj: id, typ: typ}}
+									}
+								}
+							}
+						}
+					}
+					f.fail(x, "unsupported allocation of %s (only &%s{g: &%s{}})", typ, typ, wrappers[typ])
+				}
+				if typ == "gfP" && len(cl.Elts) != 0 {
+					id := f.alloc(st, typ, name, "local", f.gfpLit(st, cl))
+					return bind{kind: "ptr", p: ptr{obj: id, typ: typ}}
+				}
+				if len(cl.Elts) != 0 || (typ != "gfP" && !isStruct(typ)) {
+					f.fail(x, "unsupported allocation (only &T{} of the known types)")
+				}
 				id := f.alloc(st, typ, name, "local", zeroV(typ))
 				return bind{kind: "ptr", p: ptr{obj: id, typ: typ}}
+			}
+			// &t, &s.(*mod.Int).V: the address of a big.Int value is the number
+			if nb, ok := f.natOperand(st, x.X); ok {
+				return nb
 			}
 			return bind{kind: "ptr", p: f.lval(st, x.X)}
 		case token.NOT:
@@ -284,6 +318,9 @@ func (f *fctx) eval(st *state, e ast.Expr, hint string) bind {
 			b := f.eval(st, x.X, "")
 			if b.kind == "int" {
 				return bind{kind: "int", n: -b.n}
+			}
+			if b.kind == "sint" {
+				return bind{kind: "sint", e: &E{K: "intneg", Args: []*E{b.e}, Typ: "int"}}
 			}
 		}
 		f.fail(x, "unsupported unary expression")
@@ -307,6 +344,21 @@ func (f *fctx) eval(st *state, e ast.Expr, hint string) bind {
 		}
 		return bind{kind: "val", v: f.read(st, x, p.p)}
 	case *ast.CompositeLit:
+		if at, ok := x.Type.(*ast.ArrayType); ok && at.Len != nil && typeName(at.Elt) == "uint64" {
+			var ws []uint64
+			for _, el := range x.Elts {
+				bl, ok := el.(*ast.BasicLit)
+				if !ok || bl.Kind != token.INT {
+					f.fail(x, "array literal with a non-constant element")
+				}
+				w, err := strconv.ParseUint(bl.Value, 0, 64)
+				if err != nil {
+					f.fail(x, "array element %s", bl.Value)
+				}
+				ws = append(ws, w)
+			}
+			return bind{kind: "arr", arr: ws}
+		}
 		typ := typeName(x.Type)
 		if typ == "gfP" {
 			for _, el := range x.Elts {
@@ -322,9 +374,59 @@ func (f *fctx) eval(st *state, e ast.Expr, hint string) bind {
 		}
 		f.fail(x, "unsupported composite literal")
 	case *ast.SelectorExpr:
-		p := f.lval(st, x)
+		if nb, ok := f.natOperand(st, x); ok {
+			return nb
+		}
+		base := f.lvalBase(st, x.X, "")
+		p := f.selPtr(base, x)
+		if isWrapper(base.typ) {
+			return bind{kind: "ptr", p: p} // the field g of a wrapper IS the pointer
+		}
 		return bind{kind: "val", v: f.read(st, x, p)}
+	case *ast.TypeAssertExpr:
+		b := f.eval(st, x.X, hint)
+		want := typeName(x.Type)
+		switch b.kind {
+		case "ptr":
+			if b.p.null || b.p.typ != want {
+				f.fail(x, "type assertion to *%s on a value the translator reads as *%s", want, b.p.typ)
+			}
+			return b
+		case "nat":
+			if want == "mod.Int" {
+				return b
+			}
+		}
+		f.fail(x, "unsupported type assertion")
 	case *ast.IndexExpr:
+		if xb, ok := f.tryEval(st, x.X); ok {
+			switch xb.kind {
+			case "arr":
+				i := f.eval(st, x.Index, "")
+				if i.kind == "int" && i.n >= 0 && int(i.n) < len(xb.arr) {
+					return u64bind(xb.arr[i.n])
+				}
+				f.fail(x, "array index")
+			case "list":
+				i := f.eval(st, x.Index, "")
+				if i.kind != "idx" {
+					f.fail(x, "slice parameter indexed by something else than the loop variable")
+				}
+				id, ok2 := st.elems[xb.e.Name]
+				if !ok2 {
+					f.fail(x, "slice parameter %s indexed outside its loop", xb.e.Name)
+				}
+				return bind{kind: "ptr", p: ptr{obj: id, typ: xb.p.typ}}
+			case "ptr":
+				if xb.p.typ == "gfP" {
+					i := f.eval(st, x.Index, "")
+					if i.kind != "int" || i.n < 0 || i.n > 3 {
+						f.fail(x, "limb index is not a constant 0..3")
+					}
+					return bind{kind: "word", e: f.read(st, x, xb.p).wordOf(int(i.n))}
+				}
+			}
+		}
 		if id, ok := x.X.(*ast.Ident); ok && id.Name == "sixuPlus2NAF" && f.t.naf != nil {
 			i := f.eval(st, x.Index, "")
 			if i.kind == "int" && i.n >= 0 && int(i.n) < len(f.t.naf) {
@@ -336,6 +438,19 @@ func (f *fctx) eval(st *state, e ast.Expr, hint string) bind {
 		switch x.Op {
 		case token.LAND, token.LOR, token.EQL, token.NEQ, token.GTR, token.GEQ, token.LSS, token.LEQ:
 			return bind{kind: "bool", e: f.evalBool(st, x)}
+		case token.SHR, token.AND:
+			a, b := f.eval(st, x.X, ""), f.eval(st, x.Y, "")
+			if au, ok := concU64(a); ok {
+				if bu, ok := concU64(b); ok {
+					if x.Op == token.SHR {
+						if bu > 63 {
+							return u64bind(0)
+						}
+						return u64bind(au >> bu)
+					}
+					return u64bind(au & bu)
+				}
+			}
 		case token.ADD, token.SUB:
 			a, b := f.eval(st, x.X, ""), f.eval(st, x.Y, "")
 			if a.kind == "int" && b.kind == "int" {
@@ -360,6 +475,96 @@ func (f *fctx) eval(st *state, e ast.Expr, hint string) bind {
 	return bind{}
 }
 
+func u64bind(u uint64) bind {
+	if u < 1<<62 {
+		return bind{kind: "int", n: int64(u)}
+	}
+	return bind{kind: "u64", u: u}
+}
+
+func concU64(b bind) (uint64, bool) {
+	switch b.kind {
+	case "int":
+		if b.n >= 0 {
+			return uint64(b.n), true
+		}
+	case "u64":
+		return b.u, true
+	}
+	return 0, false
+}
+
+// tryEval: the binding of an identifier (local, parameter or global), if it is one
+func (f *fctx) tryEval(st *state, e ast.Expr) (bind, bool) {
+	id, ok := unparen(e).(*ast.Ident)
+	if !ok {
+		return bind{}, false
+	}
+	if b, ok := st.env[id.Name]; ok {
+		return b, true
+	}
+	if id.Name == "sixuPlus2NAF" {
+		return bind{}, false
+	}
+	if _, ok := f.t.globals[id.Name]; ok {
+		return f.eval(st, id, ""), true
+	}
+	return bind{}, false
+}
+
+// natOperand: `t` (a big.Int value copied from a scalar) and `s.(*mod.Int).V` denote the number itself
+func (f *fctx) natOperand(st *state, e ast.Expr) (bind, bool) {
+	switch x := unparen(e).(type) {
+	case *ast.Ident:
+		if b, ok := st.env[x.Name]; ok && b.kind == "nat" {
+			return b, true
+		}
+	case *ast.SelectorExpr:
+		if ta, ok := unparen(x.X).(*ast.TypeAssertExpr); ok && x.Sel.Name == "V" && typeName(ta.Type) == "mod.Int" {
+			b := f.eval(st, ta, "")
+			if b.kind == "nat" {
+				return b, true
+			}
+		}
+	}
+	return bind{}, false
+}
+
+// gfpLit: &gfP{w0, …}: the raw limbs (NOT Montgomery encoded); missing limbs are zero
+func (f *fctx) gfpLit(st *state, cl *ast.CompositeLit) *V {
+	e := &E{K: "rawlit", Typ: "gfP"}
+	for _, el := range cl.Elts {
+		b := f.eval(st, el, "")
+		switch b.kind {
+		case "int":
+			if b.n < 0 {
+				f.fail(cl, "negative limb")
+			}
+			e.Args = append(e.Args, &E{K: "intlit", Name: strconv.FormatInt(b.n, 10), Typ: "nat"})
+		case "u64":
+			e.Args = append(e.Args, &E{K: "intlit", Name: strconv.FormatUint(b.u, 10), Typ: "nat"})
+		case "natofint":
+			e.Args = append(e.Args, b.e)
+		default:
+			f.fail(cl, "unsupported limb expression in a gfP literal")
+		}
+	}
+	return atomV(e)
+}
+
+// lvalBase: the pointer an expression denotes, without following a wrapper's `g`
+func (f *fctx) lvalBase(st *state, e ast.Expr, hint string) ptr {
+	switch unparen(e).(type) {
+	case *ast.CallExpr, *ast.UnaryExpr, *ast.TypeAssertExpr:
+		b := f.eval(st, e, hint)
+		if b.kind != "ptr" {
+			f.fail(e, "selector on a non-pointer")
+		}
+		return b.p
+	}
+	return f.lval(st, e)
+}
+
 // lval: address of an addressable expression (pointer variables are dereferenced implicitly)
 func (f *fctx) lval(st *state, e ast.Expr) ptr {
 	e = unparen(e)
@@ -376,28 +581,28 @@ func (f *fctx) lval(st *state, e ast.Expr) ptr {
 			return b.p
 		}
 	case *ast.SelectorExpr:
-		var base ptr
-		switch unparen(x.X).(type) {
-		case *ast.CallExpr, *ast.UnaryExpr:
-			b := f.eval(st, x.X, "")
-			if b.kind != "ptr" {
-				f.fail(x, "selector on a non-pointer")
-			}
-			base = b.p
-		default:
-			base = f.lval(st, x.X)
-		}
-		if base.null {
-			f.fail(x, "field of a nil pointer")
-		}
-		i := fieldIndex(base.typ, x.Sel.Name)
-		if i < 0 {
-			f.fail(x, "type %s has no field %s", base.typ, x.Sel.Name)
-		}
-		return ptr{obj: base.obj, path: append(append([]int{}, base.path...), i), typ: expectedStructs[base.typ][i].typ}
+		return f.selPtr(f.lvalBase(st, x.X, ""), x)
 	}
 	f.fail(e, "not addressable")
 	return ptr{}
+}
+
+// selPtr: the address of field x.Sel of the object base points to
+func (f *fctx) selPtr(base ptr, x *ast.SelectorExpr) ptr {
+	if base.null {
+		f.fail(x, "field of a nil pointer")
+	}
+	if u, ok := wrappers[base.typ]; ok {
+		if x.Sel.Name != "g" {
+			f.fail(x, "type %s has no field %s", base.typ, x.Sel.Name)
+		}
+		return ptr{obj: base.obj, path: base.path, typ: u}
+	}
+	i := fieldIndex(base.typ, x.Sel.Name)
+	if i < 0 {
+		f.fail(x, "type %s has no field %s", base.typ, x.Sel.Name)
+	}
+	return ptr{obj: base.obj, path: append(append([]int{}, base.path...), i), typ: expectedStructs[base.typ][i].typ}
 }
 
 func boolLit(b bool) *E {
@@ -450,6 +655,14 @@ func (f *fctx) evalBool(st *state, e ast.Expr) *E {
 			}
 			if a.kind == "bit" && b.kind == "int" && b.n == 0 && x.Op == token.NEQ {
 				return a.e
+			}
+			if a.kind == "ptr" && b.kind == "ptr" && b.p.null && (x.Op == token.EQL || x.Op == token.NEQ) {
+				// nil-ness of a pointer is static: a parameter that the code compares with nil is
+				// translated once per case (summary variants `_nil_<param>`)
+				return boolLit(a.p.null == (x.Op == token.EQL))
+			}
+			if a.kind == "sint" && b.kind == "int" && b.n == 0 && x.Op == token.GEQ {
+				return &E{K: "intge0", Args: []*E{a.e}, Typ: "bool"}
 			}
 			if a.kind == "val" && b.kind == "val" && (x.Op == token.EQL || x.Op == token.NEQ) {
 				if a.v.typ != b.v.typ {
@@ -517,6 +730,42 @@ func (f *fctx) evalCall(st *state, c *ast.CallExpr, hint string) []bind {
 			f.write(st, c, dst, atomV(v))
 			return nil
 		}
+		switch fn.Name {
+		case "uint", "uint64", "int", "int64":
+			if len(c.Args) == 1 {
+				b := f.eval(st, c.Args[0], "")
+				switch b.kind {
+				case "int", "u64":
+					if b.kind == "int" && b.n < 0 && fn.Name[0] == 'u' {
+						f.fail(c, "conversion of a negative constant")
+					}
+					return []bind{b}
+				case "sint":
+					if fn.Name == "uint64" {
+						// uint64(x) of an int64 the code has just tested / negated to be ≥ 0
+						return []bind{{kind: "natofint", e: &E{K: "inttonat", Args: []*E{b.e}, Typ: "nat"}}}
+					}
+				}
+				f.fail(c, "unsupported conversion %s(…)", fn.Name)
+			}
+		case "new":
+			if len(c.Args) == 1 {
+				if typ := typeName(c.Args[0]); typ == "gfP" || isStruct(typ) {
+					name := hint
+					if name == "" {
+						name = "tmp"
+					}
+					id := f.alloc(st, typ, name, "local", zeroV(typ))
+					return []bind{{kind: "ptr", p: ptr{obj: id, typ: typ}}}
+				}
+			}
+			f.fail(c, "unsupported new(…)")
+		}
+		if fn.Name == "len" && len(c.Args) == 1 {
+			if lb, ok := f.tryEval(st, c.Args[0]); ok && lb.kind == "list" {
+				return []bind{{kind: "nat", e: &E{K: "listlen", Args: []*E{lb.e}, Typ: "nat"}}}
+			}
+		}
 		if fn.Name == "len" && len(c.Args) == 1 {
 			if id, ok := c.Args[0].(*ast.Ident); ok && id.Name == "sixuPlus2NAF" && f.t.naf != nil {
 				return []bind{{kind: "int", n: int64(len(f.t.naf))}}
@@ -545,17 +794,21 @@ func (f *fctx) evalCall(st *state, c *ast.CallExpr, hint string) []bind {
 				f.fail(c, "unsupported big.Int method %s", m)
 			}
 		}
-		var recv ptr
-		switch unparen(fn.X).(type) {
-		case *ast.CallExpr, *ast.UnaryExpr:
-			b := f.eval(st, fn.X, hint)
-			if b.kind != "ptr" {
-				f.fail(c, "method call on a non-pointer")
+		// mod.NewInt64(0, Order).Pick(rand): a scalar in [0, Order) drawn from the stream — the value of the
+		// stream parameter in the translation
+		if inner, ok := unparen(fn.X).(*ast.CallExpr); ok && m == "Pick" && len(c.Args) == 1 {
+			if sel, ok := inner.Fun.(*ast.SelectorExpr); ok && typeName(sel) == "mod.NewInt64" &&
+				len(inner.Args) == 2 && typeName(inner.Args[1]) == "Order" {
+				if z, ok := inner.Args[0].(*ast.BasicLit); ok && z.Value == "0" {
+					rb := f.eval(st, c.Args[0], "")
+					if rb.kind == "nat" {
+						return []bind{rb}
+					}
+				}
 			}
-			recv = b.p
-		default:
-			recv = f.lval(st, fn.X)
+			f.fail(c, "unsupported Pick")
 		}
+		recv := f.lvalBase(st, fn.X, hint)
 		if recv.null {
 			f.fail(c, "method call on nil")
 		}
@@ -620,13 +873,17 @@ func (f *fctx) callTranslated(st *state, c *ast.CallExpr, key string, recv *ptr,
 			continue
 		}
 		if acts[i].p.null {
-			f.fail(c, "%s: nil argument", key)
+			if !params[i].nilable {
+				f.fail(c, "%s: nil argument", key)
+			}
+			classOf[i] = -1
+			continue
 		}
 		if acts[i].p.typ != params[i].typ {
 			f.fail(c, "%s: argument %d has type *%s, parameter *%s", key, i, acts[i].p.typ, params[i].typ)
 		}
 		for j := 0; j < i; j++ {
-			if acts[j].kind != "ptr" {
+			if acts[j].kind != "ptr" || classOf[j] < 0 {
 				continue
 			}
 			if acts[i].p.partialOverlap(acts[j].p) {
@@ -642,6 +899,9 @@ func (f *fctx) callTranslated(st *state, c *ast.CallExpr, key string, recv *ptr,
 	target := sum
 	if sum.sameAs != nil {
 		target = sum.sameAs
+	}
+	if target.canPanic {
+		f.fail(c, "%s can panic: calls of such functions are not supported", key)
 	}
 	call := &E{K: "app", Name: target.lean, Typ: "tuple"}
 	for _, g := range target.gparamList() {
@@ -668,16 +928,18 @@ func (f *fctx) callTranslated(st *state, c *ast.CallExpr, key string, recv *ptr,
 		} else if name == "" {
 			name = "r"
 		}
-		call.Typ = cp.typ
+		call.Typ = under(cp.typ)
 		typ := ""
 		if cp.typ == "bool" {
 			typ = "Bool"
+		} else if len(call.Args) == 0 {
+			typ = leanType(cp.typ) // nothing else determines α (`q := newPointG1()` whose value is overwritten)
 		}
 		comps = []*E{f.emit(st, f.fresh(name), typ, call)}
 	} else if n > 1 {
 		r := f.emit(st, f.fresh("r"), "", call)
 		for i, cp := range sum.comps {
-			comps = append(comps, &E{K: "tproj", Args: []*E{r}, I: i, N: n, Typ: cp.typ})
+			comps = append(comps, &E{K: "tproj", Args: []*E{r}, I: i, N: n, Typ: under(cp.typ)})
 		}
 	}
 	var fresh = map[int]ptr{}
@@ -690,7 +952,7 @@ func (f *fctx) callTranslated(st *state, c *ast.CallExpr, key string, recv *ptr,
 			if name == "" || n > 1 {
 				name = cp.name
 			}
-			id := f.alloc(st, cp.typ, name, "local", atomV(comps[i]))
+			id := f.alloc(st, under(cp.typ), name, "local", atomV(comps[i]))
 			fresh[i] = ptr{obj: id, typ: cp.typ}
 		}
 	}
@@ -734,8 +996,8 @@ func (f *fctx) assignIdent(st *state, id *ast.Ident, b bind, define bool) {
 	if b.kind == "bool" {
 		b.e = f.boolAtom(st, b.e, id.Name)
 	}
-	if b.kind == "bit" {
-		f.fail(id, "unsupported use of Bit()")
+	if b.kind == "bit" || b.kind == "word" || b.kind == "natofint" {
+		f.fail(id, "unsupported value kind %s in a variable", b.kind)
 	}
 	st.env[id.Name] = b
 }
@@ -767,12 +1029,28 @@ func (f *fctx) assign(st *state, s *ast.AssignStmt) {
 		}
 	}
 	for i, l := range s.Lhs {
+		idx := i
 		if id, ok := l.(*ast.Ident); ok {
 			f.assignIdent(st, id, vals[i], s.Tok == token.DEFINE)
 			continue
 		}
 		if s.Tok == token.DEFINE {
 			f.fail(s, "unsupported := target")
+		}
+		if ix, ok := l.(*ast.IndexExpr); ok {
+			// e[i] = w: one limb of a gfP
+			if xb, ok := f.tryEval(st, ix.X); ok && xb.kind == "ptr" && xb.p.typ == "gfP" {
+				i := f.eval(st, ix.Index, "")
+				if i.kind != "int" || i.n < 0 || i.n > 3 {
+					f.fail(s, "limb index is not a constant 0..3")
+				}
+				if vals[idx].kind != "word" {
+					f.fail(s, "unsupported limb store")
+				}
+				f.write(st, s, xb.p, f.read(st, s, xb.p).withWord(int(i.n), vals[idx].e))
+				continue
+			}
+			f.fail(s, "unsupported indexed store")
 		}
 		p := f.lval(st, l)
 		if vals[i].kind != "val" {
@@ -930,6 +1208,9 @@ func (f *fctx) runFor(st *state, s *ast.ForStmt, k func(*state)) {
 		f.fail(s, "unsupported for post statement")
 	}
 	d := st.depth
+	if f.sliceLoop(st, s, iv, init, post, k) {
+		return
+	}
 	st.depth = d + 1
 	start := f.eval(st, init.Rhs[0], "")
 	if start.kind == "int" {
@@ -1050,6 +1331,159 @@ func (f *fctx) runFor(st *state, s *ast.ForStmt, k func(*state)) {
 	k(st)
 }
 
+// sliceLoop: `for i := 0; i < len(a); i++ { … a[i] … b[i] … }` over slice PARAMETERS becomes a fold over
+// `a` (or `List.zip a b`): Go panics (index out of range) when another slice indexed by i is shorter than
+// `a`, which is a separate leaf of the translation (value `none`); elements beyond len(a) are ignored, as in Go.
+func (f *fctx) sliceLoop(st *state, s *ast.ForStmt, iv *ast.Ident, init *ast.AssignStmt, post *ast.IncDecStmt, k func(*state)) bool {
+	cx, ok := unparen(s.Cond).(*ast.BinaryExpr)
+	if !ok || cx.Op != token.LSS || post.Tok != token.INC {
+		return false
+	}
+	if l, ok := cx.X.(*ast.Ident); !ok || l.Name != iv.Name {
+		return false
+	}
+	lc, ok := unparen(cx.Y).(*ast.CallExpr)
+	if !ok || len(lc.Args) != 1 {
+		return false
+	}
+	if fn, ok := lc.Fun.(*ast.Ident); !ok || fn.Name != "len" {
+		return false
+	}
+	lead, ok := f.tryEval(st, lc.Args[0])
+	if !ok || lead.kind != "list" {
+		return false
+	}
+	if z, ok := init.Rhs[0].(*ast.BasicLit); !ok || z.Value != "0" {
+		f.fail(s, "slice loop does not start at 0")
+	}
+	// the slice parameters indexed by the loop variable, in order of first use
+	lists := []bind{lead}
+	ast.Inspect(s.Body, func(n ast.Node) bool {
+		if ix, ok := n.(*ast.IndexExpr); ok {
+			if id, ok := ix.Index.(*ast.Ident); ok && id.Name == iv.Name {
+				if lb, ok := f.tryEval(st, ix.X); ok && lb.kind == "list" {
+					for _, l := range lists {
+						if l.e.Name == lb.e.Name {
+							return true
+						}
+					}
+					lists = append(lists, lb)
+				}
+			}
+		}
+		return true
+	})
+	if len(lists) > 2 {
+		f.fail(s, "loop over more than two slices")
+	}
+	d := st.depth
+	// a shorter second slice: index out of range
+	if len(lists) == 2 {
+		node := st.cur
+		node.cond = &E{K: "natlt", Typ: "bool", Args: []*E{
+			{K: "listlen", Args: []*E{lists[1].e}, Typ: "nat"}, {K: "listlen", Args: []*E{lead.e}, Typ: "nat"}}}
+		node.th = &prog{panics: "index out of range: len(" + lists[1].e.Name + ") < len(" + lead.e.Name + ")"}
+		node.el = &prog{}
+		st.cur = node.el
+		f.canPanic = true
+	}
+	elemVar := f.fresh("el")
+	mkElems := func(s2 *state) {
+		for j, l := range lists {
+			var e *E
+			if len(lists) == 1 {
+				e = eVar(elemVar, under(l.p.typ))
+			} else {
+				e = &E{K: "tproj", Args: []*E{eVar(elemVar, "tuple")}, I: j, N: 2, Typ: under(l.p.typ)}
+			}
+			id := f.alloc(s2, under(l.p.typ), l.e.Name+"_i", "elem", atomV(e))
+			s2.elems[l.e.Name] = id
+		}
+	}
+	// dry run: which objects does the body write?
+	touched := map[int]bool{}
+	{
+		savedCtr := map[string]int{}
+		for k, v := range f.ctr {
+			savedCtr[k] = v
+		}
+		savedObj, savedLeaves, savedCallees := f.nextObj, len(f.leaves), len(f.callees)
+		dry := st.fork(&prog{})
+		dry.touched = map[int]bool{}
+		dry.depth = d + 2
+		mkElems(dry)
+		dry.env[iv.Name] = bind{kind: "idx", depth: d + 1}
+		end := func(s2 *state) {
+			for o := range s2.touched {
+				touched[o] = true
+			}
+		}
+		dry.contK = []func(*state){end}
+		f.run(dry, s.Body.List, end)
+		if len(f.leaves) != savedLeaves {
+			f.fail(s, "return inside a loop")
+		}
+		f.ctr, f.nextObj, f.callees = savedCtr, savedObj, f.callees[:savedCallees]
+	}
+	var carried []int
+	for o := range touched {
+		if _, ok := st.objs[o]; ok {
+			carried = append(carried, o)
+		}
+	}
+	sort.Ints(carried)
+	if len(carried) == 0 {
+		f.fail(s, "loop without effect")
+	}
+	n := len(carried)
+	var typs []string
+	var inits []*E
+	for _, o := range carried {
+		typs = append(typs, leanType(f.objTyp(o)))
+		inits = append(inits, st.objs[o].toE())
+	}
+	stName := f.fresh("st")
+	sub := &prog{}
+	body := st.fork(sub)
+	body.depth = d + 2
+	mkElems(body)
+	stVar := eVar(stName, "tuple")
+	for j, o := range carried {
+		body.objs[o] = atomV(&E{K: "tproj", Args: []*E{stVar}, I: j, N: n, Typ: f.objTyp(o)})
+	}
+	body.env[iv.Name] = bind{kind: "idx", depth: d + 1}
+	end := func(s2 *state) {
+		r := &E{K: "tuple", Typ: "tuple"}
+		for _, o := range carried {
+			r.Args = append(r.Args, s2.objs[o].toE())
+		}
+		s2.cur.ret = r
+	}
+	body.contK = []func(*state){end}
+	f.run(body, s.Body.List, end)
+	var elTyps []string
+	zip := &E{K: "zip", Typ: "list"}
+	for _, l := range lists {
+		elTyps = append(elTyps, leanType(l.p.typ))
+		zip.Args = append(zip.Args, l.e)
+	}
+	fold := &E{K: "fold", Name: "zip", Typ: "tuple", Sub: sub,
+		Args: []*E{{K: "tuple", Args: inits, Typ: "tuple"}, zip},
+		Bind: []bind2{{stName, strings.Join(typs, " × ")}, {elemVar, strings.Join(elTyps, " × ")}}}
+	res := f.emit(st, f.fresh("loop"), "", fold)
+	for j, o := range carried {
+		st.objs[o] = atomV(&E{K: "tproj", Args: []*E{res}, I: j, N: n, Typ: f.objTyp(o)})
+		st.written[o] = true
+		st.touched[o] = true
+	}
+	for _, l := range lists {
+		delete(st.elems, l.e.Name)
+	}
+	st.depth = d
+	k(st)
+	return true
+}
+
 func (f *fctx) finish(st *state, n ast.Node, results []ast.Expr) {
 	lf := &leaf{st: st, node: st.cur}
 	if len(results) == 0 {
@@ -1077,6 +1511,10 @@ func typeName(e ast.Expr) string {
 	case *ast.SelectorExpr:
 		if id, ok := t.X.(*ast.Ident); ok {
 			return id.Name + "." + t.Sel.Name
+		}
+	case *ast.ArrayType:
+		if t.Len == nil {
+			return "[]" + typeName(t.Elt)
 		}
 	}
 	return ""
